@@ -28,6 +28,7 @@ func init() {
 			{"C02/mint", "GeneratePAAToken: HS256 under SigningKey, same issuer as the verifier, constant lifetime <= 5 min, key length guard", c02Mint},
 			{"C02/reject-status", "packet loop: a refused cookie is answered with the cookie-access-denied status and the tunnel ends; success only after the callback accepted", c02RejectStatus},
 			{"C02/key-wiring", "the verification key is the configured PAA token signing key: main copies conf.Security.PAATokenSigningKey into security.SigningKey", func(c *Ctx) { keyWiring(c, "C02/key-wiring", "SigningKey") }},
+			{"C02/key-defaults", "config.Load's defaults carry no value for the PAA token keys: a built-in key would pass the length test and be the same on every installation", func(c *Ctx) { keyDefaults(c, "C02/key-defaults", []string{"Security.PAATokenSigningKey", "Security.PAATokenEncryptionKey"}) }},
 			{"C02/cookie-length", "the size of the cookie field is not capped by a constant: a cookie the gateway minted is decoded whatever its length", c02CookieLength},
 			{"C02/cookie-decoding", "the cookie string handed to the check is the whole cookie field: the UTF-16 decoder visits every code unit and removes at most one trailing NUL", func(c *Ctx) { nameDecodingAs(c, "C02/cookie-decoding", "Processor.tunnelRequest", 1) }},
 		},
